@@ -366,32 +366,40 @@ def run_queries(nodes, model, case):
 # explorer glue
 # ----------------------------------------------------------------------------
 
+class PrefixFailed(Exception):
+    """a prefix that satisfied the step relation when first explored fails now: state kept by the library between histories"""
+    def __init__(self, probs):
+        self.probs = probs
+
+
 def replay_history(names, history):
     nodes = build(names)
     model = Model(names)
-    for op in history:
-        # histories stored in the BFS only contain transitions that satisfied the step relation
-        if "!" in op[0]:
-            try:
-                impl_apply(nodes, op)
-            except Exception:
-                pass
-        else:
-            impl_apply(nodes, op)
-            model.apply(op)
+    for i, op in enumerate(history):
+        # histories stored in the BFS only contain transitions that satisfied the step relation when first explored
+        pr = step(nodes, model, op, {"config": {"names": list(names)}, "history": history[:i], "op": op})
+        if pr:
+            raise PrefixFailed(pr)
     return nodes, model
 
 
 def expand(item):
     config, history = item
     names = config["names"]
-    nodes, model = replay_history(names, history)
+    try:
+        nodes, model = replay_history(names, history)
+    except PrefixFailed as e:
+        return {"key": None, "state_probs": e.probs, "n_state_checks": 0, "succ": []}
     base_case = {"config": config, "history": history}
     key = canon(nodes, model)
     state_probs, nq = run_queries(nodes, model, base_case)
     succ = []
     for op in model.enabled():
-        nodes2, model2 = replay_history(names, history)
+        try:
+            nodes2, model2 = replay_history(names, history)
+        except PrefixFailed as e:
+            succ.append((op, None, e.probs, "prefix:violation"))
+            continue
         case = dict(base_case, op=op)
         probs = step(nodes2, model2, op, case)
         if probs:
@@ -403,7 +411,10 @@ def expand(item):
 
 def replay(case):
     names = case["config"]["names"]
-    nodes, model = replay_history(names, case["history"])
+    try:
+        nodes, model = replay_history(names, case["history"])
+    except PrefixFailed as e:
+        return e.probs
     if "op" in case:
         return step(nodes, model, case["op"], case)
     probs, _ = run_queries(nodes, model, {"config": case["config"], "history": case["history"]})
